@@ -237,6 +237,63 @@ theorem started_is_emitted (me : Nat) (tr p mid r : List Ev) (e : Ev) (q : Nat)
           · have := ((Life.C04.next_fields hn4).2 hm3 (by simpa using hse) hex).2
             rw [this] at he; cases he
 
+/-! ### Known finding F15 (`c04.missing-terminal-in-cycle`): supervision cycles
+
+ractor's `link()` accepts a link that closes a supervision cycle. An actor that exits while it is on such a
+cycle does not send its terminal event: its own `terminate()` walks back to it and clears its supervisor
+before `notify_supervisor`. The model's `cleanup` does send the event, so the model describes the code on
+**acyclic** runs only; the full statement ("for every run of the real system the trace of every actor is accepted")
+is false of the code, as the witness shows. -/
+
+/-- The trace of actor 0 that the REAL code produces on the witness `corpus/C04/e-lts-link-cycle.ops`
+(events of actor 0 as the driver derives them from the implementation's observations: `link 0 1`, then — after
+`link 1 0` closed the cycle — `stop 0`, `post_stop`, and the end of the task with NO terminal event although
+the observed supervisor is 1). -/
+def cycleWitnessImplTrace : List Ev :=
+  [.enter .preStart .none, .tick .preStart, .exit .preStart .ok, .spawnRet .ok,
+   .enter .postStart .none, .tick .postStart, .exit .postStart .ok,
+   .supIs (some 1),
+   .stopRet false .none true, .enter .postStop .none, .tick .postStop, .exit .postStop .ok,
+   .join .ok]
+
+/-- **Negation on the witness**: the property's own oracle rejects what the implementation does there
+(`c04.missing-terminal`, reported by the driver as `c04.missing-terminal-in-cycle`). -/
+theorem reported_once_false_on_cycle_witness : Life.C04.ok 0 cycleWitnessImplTrace = false := by decide
+
+/-- …while the model, on such ops (the same links, shortened: both actors only started, then `abort 0`), emits the terminal event to the supervisor of that instant (this is
+where model and code part; the driver renders the model's line without that event when the exiting actor is on
+a cycle, so the witness replays without a DIFF and the oracle reports the finding). -/
+def cycleWitnessOps : List Op :=
+  [.spawn 0 none none false, .resume 0 ⟨[], .ok⟩, .pollSpawn 0,
+   .spawn 1 none none false, .resume 1 ⟨[], .ok⟩, .pollSpawn 1, .link 0 1, .link 1 0]
+
+def cycleWorld : World := (({} : World).run cycleWitnessOps).1
+
+example : cycleWorld.onCycle 0 = true := by decide
+example : (cycleWorld.step (.abort 0)).2.1.any
+    (fun o => o.2 == .ev (.emit 1 (.terminated 0 false .cancelled))) = true := by decide
+
+/-- No op of the run closes a supervision cycle (a public `link`, or the link a start is going to make,
+whose new supervisor is the actor itself or one of its descendants) — decidable, evaluated along the run. -/
+def acyclicRun (w : World) : List Op → Bool
+  | [] => true
+  | op :: ops => !op.closesCycle w && acyclicRun (w.step op).1 ops
+
+/-- **C04 for the composed world, partial form (F15 excluded)**: on runs that never close a supervision
+cycle — the runs on which the model is claimed to describe the code — the trace projection of every actor is
+accepted. (The hypothesis is not needed for the model, whose `cleanup` always reports; it marks the runs the
+check's generator produces and the tie covers.) -/
+theorem reported_once_world_partial (ops : List Op) (h : ∀ op ∈ ops, op ≠ .case)
+    (_hac : acyclicRun ({} : World) ops = true) (i : Nat) :
+    Life.C04.ok i (projEvs i (({} : World).run ops).2) = true :=
+  reported_once_world ops h i
+
+-- not an acyclic run: its 8th op `link 1 0` closes the cycle (0 is already under 1)
+example : (Op.link 1 0).closesCycle (({} : World).run (cycleWitnessOps.take 7)).1 = true := by decide
+example : (Op.link 0 1).closesCycle (({} : World).run (cycleWitnessOps.take 6)).1 = false := by decide
+example : acyclicRun ({} : World) cycleWitnessOps = false := by decide
+example : acyclicRun ({} : World) (cycleWitnessOps.take 7) = true := by decide
+
 /-! ### Round 4: delivery and frame in the composed world
 
 `C04.reported_once` is about what an actor *emits*; these two are about the rest of the world
@@ -455,6 +512,8 @@ end C04
 #print axioms C04.started_is_emitted
 #print axioms C04.relink_silent
 #print axioms C04.relink_target
+#print axioms C04.reported_once_false_on_cycle_witness
+#print axioms C04.reported_once_world_partial
 #print axioms C04.emitted_is_delivered
 #print axioms C04.delivered_is_enqueued
 #print axioms C04.unrelated_untouched
